@@ -62,10 +62,10 @@ func (c *wrClientConn) CanMakeCalls() bool { return true }
 type wrListener struct{ net.Listener }
 type wrAddr struct{}
 
-func (wrAddr) Network() string       { return "tcp" }
-func (wrAddr) String() string        { return "verif:0" }
-func (wrListener) Addr() net.Addr    { return wrAddr{} }
-func (wrListener) Close() error      { return nil }
+func (wrAddr) Network() string    { return "tcp" }
+func (wrAddr) String() string     { return "verif:0" }
+func (wrListener) Addr() net.Addr { return wrAddr{} }
+func (wrListener) Close() error   { return nil }
 
 type wrMux struct{ mux.MultiMuxManager }
 
